@@ -10,7 +10,7 @@ def status():
     o = []
     props = {os.path.basename(f)[:-5]: json.load(open(f)) for f in sorted(glob.glob(os.path.join(ROOT, 'lib/props/C*.json')))}
     titles = {json.loads(l)['id']: json.loads(l)['title'] for l in open(os.path.join(ROOT, 'properties.jsonl'))}
-    o.append('| prop | title | registered | obligations (Qed in cone) | cases per quick run | theorems (Properties/Cxx.v) |')
+    o.append('| prop | title | registered | obligations (Qed in cone) | cases per quick run | theorems (Properties/Cxx.v and its extra statement files) |')
     o.append('|---|---|---|---|---|---|')
     for i in range(1, 21):
         pid = 'C%02d' % i
@@ -20,12 +20,12 @@ def status():
             ev = json.load(open(ep)).get('coverage', {})
         P = props.get(pid)
         if P:
-            th = P.get('theorems') or []
-            if not th:
-                pf = os.path.join(ROOT, 'coq/Properties/%s.v' % pid)
+            th = []
+            for rel in ['Properties/%s.v' % pid] + list(P.get('extra_propfiles') or []):
+                pf = os.path.join(ROOT, 'coq', rel)
                 if os.path.exists(pf):
-                    th = re.findall(r'^(?:Theorem|Corollary|Lemma)\s+(\w+)', open(pf).read(), re.M)
-            names = ', '.join(t.split(' ')[0] for t in th[:14]) + (' …' if len(th) > 14 else '')
+                    th += re.findall(r'^(?:Theorem|Corollary|Lemma)\s+(\w+)', open(pf).read(), re.M)
+            names = ', '.join(th[:12]) + (' … (%d statements)' % len(th) if len(th) > 12 else '')
             o.append('| %s | %s | yes | %s | %s | %s |' % (pid, titles[pid], ev.get('obligations', '?'), ev.get('evaluations', '?'), names))
         else:
             o.append('| %s | %s | **no** (listed under not_applicable with the reason) | | | |' % (pid, titles[pid]))
